@@ -290,8 +290,13 @@ package dastard
 //@   ensures labels: old(LabelsOK(dsp.stream)) ==> LabelsOK(dsp.stream)
 //@   modifies dsp.stream.rawData, dsp.stream.rawData[*], dsp.stream.firstFrameIndex, dsp.stream.firstTime
 
+// OffFits: while an OFF writer is installed the loaded projectors still have the number of bases the file was opened with.
+//@ pred OffFits(d *DataStreamProcessor) := d.OFF != nil ==> d.projectors != nil && hasprojectors(d.projectors) && dims0(d.projectors) == d.OFF.NumberOfBases
+
 //@ func (*DataStreamProcessor).AnalyzeData
 //@   trusted
+//@   ensures readable: RecsReadable(records)
+//@   ensures coefs: OffFits(dsp) && dsp.OFF != nil ==> (forall p int :: {at(records, p)} records.off <= p && p < records.off + len(records) ==> len(at(records, p).modelCoefs) == dsp.OFF.NumberOfBases)
 //@   modifies any(DataRecord).pretrigMean, any(DataRecord).pretrigDelta, any(DataRecord).pulseAverage, any(DataRecord).pulseRMS, any(DataRecord).peakValue, any(DataRecord).modelCoefs, any(DataRecord).residualStdDev
 
 // processSegment: the block is appended, triggered, analysed and published; the stream is NOT
@@ -300,19 +305,30 @@ package dastard
 //@   props C01 C02
 //@   requires WFStream(dsp.stream) && LenOK(dsp) && EMTValid(dsp) && !dsp.Decimate
 //@   requires segment != nil && addr(dsp.stream.DataSegment) != segment
+//@   requires writers: !IOFaults() && !QueueFull() && PubOK(dsp.DataPublisher) && OffFits(dsp)
 //@   ensures window: WFStream(dsp.stream) && dsp.stream.samplesSeen == old(dsp.stream.samplesSeen) + old(len(segment.rawData)) && len(dsp.stream.rawData) == old(len(dsp.stream.rawData)) + old(len(segment.rawData))
 //@   ensures history: forall a int :: {dsp.stream.hist[a]} a < old(dsp.stream.samplesSeen) ==> dsp.stream.hist[a] == old(dsp.stream.hist[a])
 //@   ensures stamps: dsp.stream.firstFrameIndex == old(segment.firstFrameIndex) - old(len(dsp.stream.rawData)) * old(segment.framesPerSample)
 //@   ensures labels: old(Contig(dsp.stream, segment)) ==> LabelsOK(dsp.stream)
 //@   ensures lengths: unchanged(dsp.NSamples, dsp.NPresamples)
+//@   ensures writers: PubOK(dsp.DataPublisher) && OffFits(dsp)
 //@   modifies dsp.stream.*, dsp.stream.hist, dsp.stream.gframe, dsp.stream.gtime, dsp.stream.rawData[*], dsp.LastTrigger, dsp.lastTrigList.*, dsp.EMTState.nextFrameIndexToInspect, dsp.EMTState.t, dsp.EMTState.u, dsp.EMTState.v, dsp.EMTState.iFirstCheckSentinel, dsp.numberWritten,
+//@            any(ljh.Writer).HeaderWritten, any(ljh.Writer).file, any(ljh.Writer).writer, any(ljh.Writer).RecordsWritten,
+//@            any(ljh.Writer3).HeaderWritten, any(ljh.Writer3).file, any(ljh.Writer3).writer, any(ljh.Writer3).RecordsWritten,
+//@            any(off.Writer).headerWritten, any(off.Writer).file, any(off.Writer).writer, any(off.Writer).recordsWritten,
+//@            any(asyncbufio.Writer).n, any(asyncbufio.Writer).acc, any(asyncbufio.Writer).items, any(asyncbufio.Writer).mark,
 //@            any(DataRecord).pretrigMean, any(DataRecord).pretrigDelta, any(DataRecord).pulseAverage, any(DataRecord).pulseRMS, any(DataRecord).peakValue, any(DataRecord).modelCoefs, any(DataRecord).residualStdDev
 
 //@ func (*DataStreamProcessor).processSecondaries
 //@   props C01 C09
 //@   requires WFStream(dsp.stream) && LenOK(dsp)
+//@   requires writers: !IOFaults() && !QueueFull() && PubOK(dsp.DataPublisher) && OffFits(dsp)
 //@   requires inrange: forall p int :: {at(secondaryFrames, p)} secondaryFrames.off <= p && p < secondaryFrames.off + len(secondaryFrames) ==>
 //@        dsp.NPresamples <= at(secondaryFrames, p) - dsp.stream.firstFrameIndex && at(secondaryFrames, p) - dsp.stream.firstFrameIndex + dsp.NSamples - dsp.NPresamples <= len(dsp.stream.rawData)
 //@   ensures window: WFStream(dsp.stream) && unchanged(dsp.stream.samplesSeen, dsp.stream.rawData, dsp.stream.firstFrameIndex)
 //@   modifies dsp.numberWritten,
+//@            any(ljh.Writer).HeaderWritten, any(ljh.Writer).file, any(ljh.Writer).writer, any(ljh.Writer).RecordsWritten,
+//@            any(ljh.Writer3).HeaderWritten, any(ljh.Writer3).file, any(ljh.Writer3).writer, any(ljh.Writer3).RecordsWritten,
+//@            any(off.Writer).headerWritten, any(off.Writer).file, any(off.Writer).writer, any(off.Writer).recordsWritten,
+//@            any(asyncbufio.Writer).n, any(asyncbufio.Writer).acc, any(asyncbufio.Writer).items, any(asyncbufio.Writer).mark,
 //@            any(DataRecord).pretrigMean, any(DataRecord).pretrigDelta, any(DataRecord).pulseAverage, any(DataRecord).pulseRMS, any(DataRecord).peakValue, any(DataRecord).modelCoefs, any(DataRecord).residualStdDev
